@@ -38,7 +38,7 @@ def mk_bounds(env, name, kinds):
             b = a
         elif k == "both":
             a, b = env.real(f"{name}_lo_{i}", -BIG, BIG), env.real(f"{name}_hi_{i}", -BIG, BIG)
-            env.assume(b - a >= Fraction(1, 1000))
+            env.assume(b - a >= Fraction(1, 10000))   # a narrow band is still two inequalities
         elif k == "lower":
             a, b = env.real(f"{name}_lo_{i}", -BIG, BIG), INF
         elif k == "upper":
